@@ -260,6 +260,25 @@ def encode_expected(fields, values, flexible, request_header=False):
     return out
 
 
+def encode_expected_defaults(fields, values, flexible, request_header=False):
+    """the default-valued instance: untagged fields as for any instance; a tagged field left at its default is elided -
+    so the tagged section holds only the tagged fields the instance was given explicitly (none here)"""
+    from spec import kafka
+    untagged = [e for e in fields if e["tag"] is None]
+    body = encode_expected(untagged, values, False, request_header) if not flexible else encode_expected(untagged, values, True, request_header)[:-1]
+    if flexible:
+        given = [e for e in fields if e["tag"] is not None and e["default"] == "<absent>" and not e["ignorable"] and not e["array"]
+                 and e["kind"] == "primitive"]
+        if given:
+            return None         # a required tagged field: covered by the populated sample
+        # type discipline of the defaults: a non-nullable struct must not default to None
+        for e in fields:
+            if e["tag"] is not None and e["kind"] == "struct" and not e["array"] and not e["ignorable"] and values.get(e["name"]) is None:
+                raise TypeError(f"tagged struct field {e['name']} defaults to None although it is not nullable")
+        return body + kafka.concrete(("uv",), 0)
+    return body
+
+
 def compare_struct(fail, pre, exp_fields, got, d_name):
     gf = got["fields"]
     names_e, names_g = [e["name"] for e in exp_fields], [g["name"] for g in gf]
@@ -280,7 +299,6 @@ def compare_struct(fail, pre, exp_fields, got, d_name):
         conv = e["kind"] == "primitive" and not e["array"] and (e["type"] == "uuid" or (e["type"] == "datetime_i64" and e["default"] is None)
                                                                 or (e["tag"] is not None and e["ignorable"] and e["default"] == "<absent>"
                                                                     and e["type"] not in D.INTS and e["type"] != "float64"))
-        conv = conv or (e["kind"] == "struct" and not e["array"] and e["tag"] is not None and e["ignorable"])
         want_null = e["nullable"] or conv
         got_null = g["nullable"]
         if want_null != got_null:
@@ -296,6 +314,15 @@ def compare_struct(fail, pre, exp_fields, got, d_name):
                 gd = gd["enum"]
             if not (isinstance(ed, tuple) and ed[0] == "raw") and gd != ed:
                 fail(f"{fp}/default", ed, gd)
+        if e["kind"] == "struct" and not e["array"] and e["tag"] is not None:
+            members = e["fields"]
+            all_defaults = members and all(m["kind"] == "primitive" and not m["array"] and m["default"] != "<absent>" for m in members)
+            if all_defaults:
+                # a tagged struct whose members all have defaults defaults to the all-defaults instance (elided on the wire)
+                gd = g["default"]
+                ok = isinstance(gd, dict) and gd.get("struct") == e["struct_name"]
+                if not ok:
+                    fail(f"{fp}/tagged-struct-default", f"{e['struct_name']}() (all members at their defaults)", gd)
         if e["kind"] == "struct":
             if g["fields"]["class"] != e["struct_name"]:
                 fail(f"{fp}/struct-class-name", e["struct_name"], g["fields"]["class"])
@@ -368,6 +395,18 @@ def bounded(rep, tier):
             want_classes = sorted({d["name"]} | struct_names(exp["fields"]))
             if sorted(g["classes"]) != want_classes:
                 fail(f"{pre}/one-class-per-visible-structure", want_classes, sorted(g["classes"]))
+            if "sample_default_error" in g:
+                fail(f"{pre}/default-instance-encodes", "encodes", g["sample_default_error"])
+            elif len(fails) == nf and "sample_default" in g:
+                try:
+                    vals = g["sample_default"]["value"]["fields"]
+                    want_bytes = encode_expected_defaults(exp["fields"], vals, exp["flexible"], d["name"] == "RequestHeader")
+                    if want_bytes is not None and want_bytes.hex() != g["sample_default"]["bytes"]:
+                        fail(f"{pre}/default-instance-bytes", want_bytes.hex()[:200], g["sample_default"]["bytes"][:200])
+                    if not g["sample_default"]["roundtrip"]:
+                        fail(f"{pre}/default-instance-roundtrip", True, False)
+                except Exception as ex:       # noqa: BLE001
+                    fail(f"{pre}/default-instance-well-typed", "every defaulted field holds a value of its declared type", repr(ex))
             if "sample_error" in g:
                 fail(f"{pre}/instances-encode", "encodes", g["sample_error"])
             elif len(fails) == nf and "sample" in g:
